@@ -18,6 +18,45 @@ var schemaClasses = []gen.Tok{
 	gen.W("implements"), gen.W("repeatable"), gen.W("QUERY"), gen.W("query"), gen.W("1"),
 }
 
+// WideSchemaDocs: one type-system construct repeated or nested n times.
+func WideSchemaDocs() []string {
+	var out []string
+	rep := func(n int, f func(i int) string, sep string) string {
+		parts := make([]string, n)
+		for i := range parts {
+			parts[i] = f(i)
+		}
+		return strings.Join(parts, sep)
+	}
+	is := func(i int) string { return strconv.Itoa(i) }
+	for _, n := range []int{1, 2, 63, 64, 65, 129, 300} {
+		out = append(out,
+			"type T { "+rep(n, func(i int) string { return "f" + is(i) + ": Int" }, " ")+" }",
+			"type T { f("+rep(n, func(i int) string { return "a" + is(i) + ": Int = " + is(i) }, ", ")+"): Int }",
+			"enum E { "+rep(n, func(i int) string { return "V" + is(i) }, " ")+" }",
+			"union U = "+rep(n, func(i int) string { return "T" + is(i) }, " | "),
+			"type T implements "+rep(n, func(i int) string { return "I" + is(i) }, " & ")+" { a: Int }",
+			"directive @d on "+rep(n, func(i int) string { return "FIELD" }, " | "),
+			"type T "+rep(n, func(i int) string { return "@d" + is(i) }, " ")+" { a: Int }",
+			"input In { "+rep(n, func(i int) string { return "f" + is(i) + ": Int = " + is(i) + " @d" }, " ")+" }",
+			rep(n, func(i int) string { return "scalar S" + is(i) }, " "),
+			rep(n, func(i int) string { return "extend type T" + is(i) + " @d" }, " "),
+			rep(n, func(i int) string { return "\"d" + is(i) + "\" type T" + is(i) + " { \"\"\"f\"\"\" a: Int }" }, " "),
+			"type T { a: "+strings.Repeat("[", n)+"Int"+strings.Repeat("]", n)+" }",
+			"type T { a: "+strings.Repeat("[", n)+"Int"+strings.Repeat("]", n-1)+" }",
+			"type T { a(x: Int = "+strings.Repeat("[", n)+"1"+strings.Repeat("]", n)+"): Int }",
+			"type T { a(x: In = "+strings.Repeat("{k: ", n)+"1"+strings.Repeat("}", n)+"): Int }",
+			"schema { "+rep(n, func(i int) string { return "query: Q" + is(i) }, " ")+" }",
+		)
+	}
+	// constructs of one definition kind inside another: what belongs to inputs on outputs and back
+	out = append(out, "type A { f: Int = 1 }", "interface A { f: Int = 1 }", "extend type A { f: [Int] = [1] }", "input A { f(x: Int): Int }",
+		"type A { f(x: Int = 1 @d): Int = 2 }", "enum E { A = 1 }", "enum E { A(x: Int) }", "union U = A = B", "scalar S { a: Int }", "scalar S = Int",
+		"input A implements I { a: Int }", "enum E implements I { A }", "union U implements I = A", "type A = B | C", "directive @d(x: Int): Int on FIELD",
+		"type A { f: Int! = null }", "input A { f: Int @d = 1 }", "type A { f @d: Int }", "type A { f: @d Int }")
+	return out
+}
+
 func runC06(c *core.Ctx) {
 	const thm = "C06 (props/C06.v); model op ps = ParseSchema.dump_parse_schema"
 	c.ReplayKnown()
@@ -100,7 +139,28 @@ func runC06(c *core.Ctx) {
 			atomic.AddInt64(&errMut, 1)
 		}
 	})
-	c.Evals += int64(nDocs) * 5
+	wide := WideSchemaDocs()
+	c.Pool.ParFor(len(wide), func(w, i int) {
+		c.CheckCase(w, "ps", thm, []byte("1"), []byte("0"), []byte("0"), []byte(wide[i]))
+	})
+	c.Count("wide_deep_and_misplaced_constructs", int64(len(wide)))
+	// several sources in one call, built-in or not, the same names again with other contents:
+	// ParseSchemas is a function of the sources it is given
+	nMulti := nDocs / 10
+	for i := 0; i < nMulti; i++ {
+		args := [][]byte{[]byte("1"), []byte("0")}
+		for j := 0; j < 1+c.Rng.Intn(3); j++ {
+			k := cases[c.Rng.Intn(len(cases))]
+			text := k.r0
+			if c.Rng.Chance(1, 5) {
+				text = k.mut
+			}
+			args = append(args, []byte(gen.Pick(c.Rng, []string{"0", "1", "1"})+text))
+		}
+		c.CheckCase(0, "pss", thm, args...)
+	}
+	c.Count("multi_source_calls", int64(nMulti))
+	c.Evals += int64(nDocs)*5 + int64(len(wide)) + int64(nMulti)
 	c.Programs = int64(nDocs)
 	c.Count("generated_documents", int64(nDocs))
 	c.Count("words_written_as_string_literals", nq)
